@@ -31,10 +31,12 @@ func processTableDepth(
 	incompleteTableDepthMap map[string]int,
 	visitedTableAttrs map[string]string,
 ) {
+	progress := false
 	for tableName := range incompleteTableDepthMap {
 		processComplete, size, tempVisitedAttrs := findTableDepth(tableName, tableMap[tableName],
 			visitedTableAttrs, completeTableDepthMap)
 		if processComplete {
+			progress = true
 			processedTablesSlice := completedTableDepthMap[size]
 			if processedTablesSlice == nil {
 				processedTablesSlice = nil
@@ -49,6 +51,16 @@ func processTableDepth(
 		}
 	}
 	if len(incompleteTableDepthMap) != 0 {
+		if !progress {
+			// a foreign key that refers to a missing table/column, or a cycle of foreign keys:
+			// another pass would change nothing (and the recursion would never end)
+			names := make([]string, 0, len(incompleteTableDepthMap))
+			for name := range incompleteTableDepthMap {
+				names = append(names, name)
+			}
+			sort.Strings(names)
+			panic(errors.Errorf("tables with unresolved or cyclic foreign keys: %s", strings.Join(names, ", ")))
+		}
 		processTableDepth(tableMap, completedTableDepthMap, completeTableDepthMap, incompleteTableDepthMap,
 			visitedTableAttrs)
 	}
